@@ -354,6 +354,60 @@ let register (reg : string -> (Sx.t list -> Sx.t) -> unit) : unit =
         let ((a, b), c) = Symbolic.auth_request_shape m (rd_bool sn) in
         L [wr_nat a; wr_nat b; wr_nat c]
       | _ -> raise (Bad "auth_request_shape arity"));
+  (* ---- the composition: bypass decision + stored credential (cookie store) + handlers ---- *)
+  reg "serve_request" (function
+      | [macs; ccfg; cookies; now0; now1; dtab; skip_preflight; routes; mt; pt; nets; ipt; use_header; rq;
+         ep; skipb; fjson; bearer_on; basic_on; domains; groups; bearer; basic; ajax; api; vg] ->
+        let rd_as = rd_opt (function
+            | L [em; gs] -> { Authz.a_email = rd_str em; a_groups = rd_list rd_str gs }
+            | v -> raise (Bad ("bad session " ^ to_string v))) in
+        let routes = rd_list (function
+            | L [m; n; i] -> { Bypass.r_method = rd_str m; r_negate = rd_bool n; r_regex = rd_nat i }
+            | v -> raise (Bad ("bad route " ^ to_string v))) routes in
+        let mtab = Hashtbl.create 8 in
+        List.iter (function
+            | L [i; p; b] -> Hashtbl.replace mtab (rd_int i, string_of_str (rd_str p)) (rd_bool b)
+            | v -> raise (Bad ("bad match entry " ^ to_string v))) (match mt with L l -> l | _ -> []);
+        let matches i p = (match Hashtbl.find_opt mtab (int_of_nat i, string_of_str p) with
+            | Some b -> b | None -> raise (Bad "regex oracle asked about an unlisted path")) in
+        let ptab = Hashtbl.create 4 in
+        List.iter (function
+            | L [u; r] -> Hashtbl.replace ptab (string_of_str (rd_str u)) (rd_opt rd_str r)
+            | v -> raise (Bad ("bad parse entry " ^ to_string v))) (match pt with L l -> l | _ -> []);
+        let parse u = (match Hashtbl.find_opt ptab (string_of_str u) with
+            | Some r -> r | None -> raise (Bad "uri oracle asked about an unlisted uri")) in
+        let nets = rd_list (function
+            | L [a; o] -> { Bypass.n_addr = rd_bign a; n_ones = rd_n o }
+            | v -> raise (Bad ("bad net " ^ to_string v))) nets in
+        let iptab = Hashtbl.create 4 in
+        List.iter (function
+            | L [u; r] -> Hashtbl.replace iptab (string_of_str (rd_str u)) (rd_opt rd_bign r)
+            | v -> raise (Bad ("bad ip entry " ^ to_string v))) (match ipt with L l -> l | _ -> []);
+        let parse_ip u = (match Hashtbl.find_opt iptab (string_of_str u) with Some r -> r | None -> None) in
+        let dt = Hashtbl.create 4 in
+        List.iter (function
+            | L [raw; sess] -> Hashtbl.replace dt (string_of_str (rd_str raw)) (rd_as sess)
+            | v -> raise (Bad ("bad decode entry " ^ to_string v))) (match dtab with L l -> l | _ -> []);
+        let decode raw = (match Hashtbl.find_opt dt (string_of_str raw) with Some r -> r | None -> None) in
+        let d = { Compose.d_cookie = rd_ccfg ccfg; d_skip_preflight = rd_bool skip_preflight; d_routes = routes;
+                  d_trusted = Bypass.build_set nets; d_use_header = rd_bool use_header;
+                  d_page = { Proxy.p_skip_provider_button = rd_bool skipb; p_force_json = rd_bool fjson };
+                  d_bearer_on = rd_bool bearer_on; d_basic_on = rd_bool basic_on;
+                  d_validator = (fun em -> Authz.email_valid (rd_list rd_str domains) [] em); d_groups = rd_list rd_str groups } in
+        let e = (match rd_sym ep with "proxy" -> Proxy.EpProxy | "authonly" -> Proxy.EpAuthOnly | _ -> Proxy.EpUserInfo) in
+        let run now =
+          let r = { Compose.r_b = rd_breq rq; r_cookies = rd_cookies cookies; r_now = rd_z now;
+                    r_bearer = rd_as bearer; r_basic = rd_as basic;
+                    r_p = { Proxy.q_ajax = rd_bool ajax; q_api = rd_bool api; q_groups = rd_list rd_str vg; q_domains = []; q_emails = []; q_clear_fails = false } } in
+          let (o, _) = Compose.serve_request (table_fun (rd_table macs)) matches parse parse_ip decode e d r in
+          (match o with
+           | Proxy.PUpstream _ -> "upstream" | Proxy.PAccepted _ -> "accepted"
+           | Proxy.PUserInfo (Some _) -> "userinfo" | Proxy.PUserInfo None -> "userinfo_empty"
+           | Proxy.PSignInPage -> "signin" | Proxy.PRedirectToProvider -> "redirect_provider"
+           | Proxy.PUnauthorized -> "unauthorized" | Proxy.PForbidden -> "forbidden" | Proxy.PErrorPage -> "other_500") in
+        let a = run now0 and b = run now1 in
+        if a = b then L [Y a] else Y "ambiguous"
+      | _ -> raise (Bad "serve_request arity"));
   (* ---- Proxy ---- *)
   reg "proxy_serve" (function
       | [ep; skipb; fjson; bypass; domains; groups; bearer; basic; stored; ajax; api; vg; clearfails] ->
